@@ -36,15 +36,21 @@ MaskCases == {[kind |-> "mask", size |-> n, mask |-> m, ok |-> MaskOk(m, n)] : n
 \* Atoms are int-valued selections on  int[3] t, int2 iv  with index  int i / float x:
 Atoms == {[s |-> "arrc", c |-> c] : c \in {-1, 1, 3}} \cup {[s |-> "arrt", it |-> it] : it \in {"int-var", "float-var", "float-literal"}}
          \cup {[s |-> "mask", m |-> m] : m \in {<<"x">>, <<"z">>, <<"x", "g">>, <<"y", "x">>}} \cup {[s |-> "vecc", c |-> c] : c \in {1, 2}}
+         \* the same masks on a larger vector (int4 iv4), where z is a component: validity depends on the vector, not on the spelling
+         \cup {[s |-> "mask4", m |-> m] : m \in {<<"z">>, <<"w">>}}
 AtomOk(a) == CASE a.s = "arrc" -> ConstIndexOk(a.c, 3) [] a.s = "arrt" -> a.it = "int-var"
-               [] a.s = "mask" -> MaskOk(a.m, 2) [] a.s = "vecc" -> ConstIndexOk(a.c, 2)
+               [] a.s = "mask" -> MaskOk(a.m, 2) [] a.s = "vecc" -> ConstIndexOk(a.c, 2) [] a.s = "mask4" -> MaskOk(a.m, 4)
 \* seq: two statements; fns: two functions; nested-member: a[S1].x + S2 (the first selection is the index of an element whose
 \* component is selected); nested-index: t[S1 % 3] + m[S2 % 3][0] (selections inside index expressions)
 Rels == {"seq", "fns", "nested-member", "nested-index"}
 CompCases == {[kind |-> "comp", rel |-> r, a |-> a, b |-> b, ok |-> AtomOk(a) /\ AtomOk(b)] : r \in Rels, a \in Atoms, b \in Atoms}
 
+\* constants beyond 32 bits, written out in the source: value = hi * 2^32 + lo with hi >= 1 (or its negation).  No extent reaches
+\* 2^32, so every one of them is outside; lo is chosen so that the low 32 bits alone would be a valid index.
+BigCases == {[kind |-> "big", on |-> o, hi |-> h, lo |-> l, neg |-> ng, ok |-> FALSE] : o \in {"arr", "arr2", "vec", "matrow", "matcol"}, h \in {1, 2}, l \in {0, 1}, ng \in BOOLEAN}
+
 VARIABLE case
-Init == case \in ArrCases \cup VecCases \cup MatCases \cup ITypCases \cup MaskCases \cup CompCases
+Init == case \in BigCases \cup ArrCases \cup VecCases \cup MatCases \cup ITypCases \cup MaskCases \cup CompCases
 Next == UNCHANGED case
 Spec == Init /\ [][Next]_case
 
